@@ -61,9 +61,12 @@ def run(tier, seed, t0):
     R.run_inv(Inv("reconstruct", n, "plain", args=["--max_nodes=%d" % T(tier, 4000, 5000)] + extra, timeout=T(tier, 1500, 8 * 3600)), seed, wd, m)
     na = T(tier, 50, 600)
     R.run_inv(Inv("reconstruct", na, "asan", args=["--max_nodes=%d" % T(tier, 700, 1200)] + extra, first=n, timeout=T(tier, 1500, 8 * 3600)), seed, wd, m)
+    # one input that is not a cell among valid ones, the cells of the file initialised by 4 threads
+    nam = T(tier, 60, 3000)
+    R.run_inv(Inv("reconstruct_among", nam, "plain", threads=4, first=8000000, timeout=T(tier, 1500, 8 * 3600), tag="reconstruct_among/plain/t4"), seed, wd, m)
     # leftovers of crashed children
     for fn in os.listdir(wd):
-        if fn.startswith("c13_input_") and fn.endswith(".vtk"):
+        if fn.startswith(("c13_input_", "c13a_input_")) and fn.endswith(".vtk"):
             try:
                 os.unlink(os.path.join(wd, fn))
             except OSError:
@@ -72,6 +75,8 @@ def run(tier, seed, t0):
     s = T(tier, 2.5, 60)
     floors = {
         "accepted_reconstructions": (b("accepted:tri_on", 0), 40 * s),
+        "files_with_one_invalid_cell_among_valid_ones": (b("among_valid:triangulation_off", 0), 0.5 * nam),
+        "invalid_cell_not_first_in_the_file": (b("among_valid_position_middle", 0) + b("among_valid_position_last", 0), 0.5 * nam),
         "cells_validated": (b("cells_validated", 0), 70 * s),
         "dumbbell_inputs (necks thinner than the sampling distance)": (b("family_tried:dumbbell", 0), 6 * s),
         "second_initialisation_cells_validated": (b("second_initialisation_cells_validated", 0), 30 * s),
